@@ -332,6 +332,8 @@ def weight(op):
         return int(t[2])
     if t[0] == "toys":
         return sum(6 ** k for k in range(int(t[5]) + 1))
+    if t[0] == "nwlong":
+        return 1
     return 1
 
 
@@ -744,6 +746,12 @@ def batches(rng, tier):
             ops.append("nw " + whx([c] * n))
             ops.append("nw " + whx([0x41] * (n - 1) + [c]))
             ops.append("nw " + whx([c] + [0x41] * (n - 1)))
+    # long strings: many growth steps of the buffer, capacities beyond 2^8 / 2^12 / 2^16
+    for n in (100, 255, 256, 257, 1000, 4095, 4096, 4097, 20000) + ((65535, 65536, 65537) if thorough else ()):
+        for pat in ([0x41], [0xE4], [0x20AC], [0x1F600], [0x41, 0x1F600], [0x20AC, 0x41, 0xE4], [0x41] * 7 + [0x10FFFF]):
+            if len(pat) * n <= 200000:
+                ops.append(f"nwlong {whx(pat)} {n}")
+    ops += [f"nwlong {whx([0x41, 0xD800])} 300", f"nwlong {whx([0x41] * 99 + [0xDFFF])} 50"]
     yield Batch("utf8-strings", ops, note="random strings of scalar values up to length 40 and, for every length 1..40, strings whose encoded length is n, 2n, 3n, 4n, n+1..n+3")
     # the facet itself: contract of the abstract converter, concrete model of libstdc++/glibc
     ops = []
